@@ -32,7 +32,7 @@ struct Stats
 {
   uint64_t steps = 0, decisions = 0, switches = 0, preemptions = 0;
   uint64_t lockAcquires = 0, contendedLocks = 0, preemptedHoldingLock = 0;
-  uint64_t atomicOps = 0, plainAccesses = 0, rangeAccesses = 0, plainYields = 0;
+  uint64_t atomicOps = 0, plainAccesses = 0, rangeAccesses = 0, plainYields = 0, timedLockTimeouts = 0;
   uint64_t syncHash = 0;   // hash of the sequence (thread, sync op, object) at synchronisation points
 };
 
